@@ -32,6 +32,44 @@ type VerifC33S3 struct {
 	faults map[string]int
 	// Requests counts the requests served, by the same names (for the harness' coverage counters).
 	Requests map[string]int
+	// PageSize: ListObjectsV2 answers at most this many keys per page (0: 1000, S3's own limit; a
+	// request's max-keys lowers it further) with IsTruncated + NextContinuationToken while keys remain.
+	PageSize int
+	// cuts: key -> n: the next whole-object GetObject of key announces the full Content-Length but the
+	// body ends after n bytes with io.ErrUnexpectedEOF, which is what net/http reports for a connection
+	// closed mid-transfer (one shot).
+	cuts map[string]int
+}
+
+// verifC33CutBody delivers data, then ends with io.ErrUnexpectedEOF instead of a clean EOF.
+type verifC33CutBody struct{ r *bytes.Reader }
+
+func (b *verifC33CutBody) Read(p []byte) (int, error) {
+	n, err := b.r.Read(p)
+	if err == io.EOF {
+		return n, io.ErrUnexpectedEOF
+	}
+	return n, err
+}
+
+func (b *verifC33CutBody) Close() error { return nil }
+
+// ArmCuts replaces the cut oracle (see cuts).
+func (v *VerifC33S3) ArmCuts(cuts map[string]int) {
+	v.mu.Lock()
+	defer v.mu.Unlock()
+	v.cuts = cuts
+}
+
+// Size is the length of a stored object (-1: absent).
+func (v *VerifC33S3) Size(key string) int {
+	v.mu.Lock()
+	defer v.mu.Unlock()
+	d, ok := v.Objects[key]
+	if !ok {
+		return -1
+	}
+	return len(d)
 }
 
 func VerifC33NewS3() *VerifC33S3 {
@@ -71,6 +109,8 @@ type verifC33ListResult struct {
 	KeyCount    int                   `xml:"KeyCount"`
 	MaxKeys     int                   `xml:"MaxKeys"`
 	IsTruncated bool                  `xml:"IsTruncated"`
+	Token       string                `xml:"ContinuationToken,omitempty"`
+	NextToken   string                `xml:"NextContinuationToken,omitempty"`
 	Contents    []verifC33ListContent `xml:"Contents"`
 }
 
@@ -113,7 +153,28 @@ func (v *VerifC33S3) Do(req *http.Request) (*http.Response, error) {
 			}
 		}
 		sort.Strings(keys)
-		out := verifC33ListResult{Name: parts[0], Prefix: prefix, KeyCount: len(keys), MaxKeys: 1000}
+		// pages: keys after the continuation token ("k:" + last key of the previous page), at most
+		// min(PageSize, max-keys, 1000) of them
+		limit := 1000
+		if v.PageSize > 0 && v.PageSize < limit {
+			limit = v.PageSize
+		}
+		if mk, err := strconv.Atoi(req.URL.Query().Get("max-keys")); err == nil && mk > 0 && mk < limit {
+			limit = mk
+		}
+		token := req.URL.Query().Get("continuation-token")
+		if strings.HasPrefix(token, "k:") {
+			after := strings.TrimPrefix(token, "k:")
+			keys = keys[sort.Search(len(keys), func(i int) bool { return keys[i] > after }):]
+		}
+		out := verifC33ListResult{Name: parts[0], Prefix: prefix, MaxKeys: limit, Token: token}
+		if len(keys) > limit {
+			keys = keys[:limit]
+			out.IsTruncated = true
+			out.NextToken = "k:" + keys[limit-1]
+		}
+		out.KeyCount = len(keys)
+		v.Requests["pages"]++
 		for _, k := range keys {
 			out.Contents = append(out.Contents, verifC33ListContent{Key: k, LastModified: "2024-01-01T00:00:00.000Z", Size: len(v.Objects[k])})
 		}
@@ -137,9 +198,20 @@ func (v *VerifC33S3) Do(req *http.Request) (*http.Response, error) {
 			if err == nil && n < len(data) {
 				data = data[len(data)-n:]
 			}
-			return resp(206, data, nil), nil
+			return resp(206, data, map[string]string{"Content-Length": strconv.Itoa(len(data))}), nil
 		}
-		return resp(200, data, nil), nil
+		if n, cut := v.cuts[key]; cut && rng == "" {
+			delete(v.cuts, key)
+			v.Requests["cut"]++
+			if n > len(data) {
+				n = len(data)
+			}
+			r := resp(200, nil, map[string]string{"Content-Length": strconv.Itoa(len(data))})
+			r.ContentLength = int64(len(data))
+			r.Body = &verifC33CutBody{r: bytes.NewReader(data[:n])}
+			return r, nil
+		}
+		return resp(200, data, map[string]string{"Content-Length": strconv.Itoa(len(data))}), nil
 	}
 	return resp(400, []byte(`<?xml version="1.0" encoding="UTF-8"?><Error><Code>BadRequest</Code><Message>unsupported</Message></Error>`), xmlHdr), nil
 }
